@@ -135,6 +135,12 @@ class SCheck(Check):
             cand["plans"] = [dict(cand["plans"][0], sched={"kind": "rtb"})]
             if reproduces(cand):
                 best = cand
+        # 2a. without user-space stepping
+        if time.time() < deadline and any(k.startswith("ustep") for k in best["plans"][0]["sched"]):
+            cand = copy.deepcopy(best)
+            cand["plans"] = [dict(cand["plans"][0], sched={k: v for k, v in cand["plans"][0]["sched"].items() if not k.startswith("ustep")})]
+            if reproduces(cand):
+                best = cand
         # 2b. an explicit schedule with as few context switches as possible (single-invocation cases)
         if time.time() < deadline and best["plans"][0]["sched"].get("kind") not in ("rtb", "explicit") and len(best["case"]["steps"]) == 1:
             try:
@@ -144,7 +150,8 @@ class SCheck(Check):
                 L = []
             if L and len(L) <= 20000:
                 cand = copy.deepcopy(best)
-                cand["plans"] = [dict(cand["plans"][0], sched={"kind": "explicit", "list": L})]
+                keep = {k: v for k, v in cand["plans"][0]["sched"].items() if k.startswith("ustep")}
+                cand["plans"] = [dict(cand["plans"][0], sched=dict(keep, kind="explicit", list=L))]
                 if reproduces(cand):
                     best = cand
                     tries = 0
